@@ -45,6 +45,9 @@ def explore(ctx):
                     base = {"op": "f_blind", "suite": suite, "seed": rng.randrange(1 << 30), "labels": labels, "claims": mk_claims(rng, n),
                             "blindable": list(hid), "hidden": list(hid), "mode": "api"}
                     api.append(dict(base, expect="ok"))
+                    if len(hid) >= 2:
+                        # the schema lists its blindable labels in another order than the claims have
+                        api.append(dict(base, blindable=list(reversed(hid)), expect="ok", seed=rng.randrange(1 << 30)))
                     if rng.random() < (1.0 if tier == "thorough" else 0.35):
                         for t in ("nonce", "commitment", "challenge", "response", "response_extra", "response_short"):
                             api.append(dict(base, tamper=t, expect="err", seed=rng.randrange(1 << 30)))
